@@ -152,7 +152,7 @@ def tfunLayout (cfg : Cfg) (es : InEdges) (comps : List (List (Int × G))) (real
     | _, _ => pure ()
   -- the composed model, from the raw input to the public result (small inputs, configurations with exact models)
   if heavy && cfg.p1 ≤ 1 && cfg.p4 ≤ 4 && cfg.p5 != 3 && es.length ≤ 16 then
-    match layoutModel (fun g => (orderWMedianP 24 g).map (·.1)) cfg es with
+    match layoutModelP (fun g => (orderWMedianP 24 g).map (·.1)) cfg es with
     | .error e => out := out ++ [("T:pipeline", false, s!"model error {e}")]
     | .ok m => out := out ++ [("T:pipeline", m == real, firstDiffOut m real)]
   -- result collection
